@@ -16,8 +16,13 @@ structure World where
   am : AMap
   sets : List ASet
   counts : Counts
+  tmaps : List AMap          -- maps with pointer / slice / map values (values = table indices)
+  tables : List (List Bytes) -- their value codecs
+  tlast : List Bytes         -- the last encoding produced per typed map
 
-def World.init : World := { pm := PMap.empty, am := [], sets := [[], [], [], []], counts := fun _ => 0 }
+def World.init : World :=
+  { pm := PMap.empty, am := [], sets := [[], [], [], []], counts := fun _ => 0,
+    tmaps := [[], [], []], tables := [[], [], []], tlast := [[], [], []] }
 
 def parseList (s : String) : Option (List Nat) :=
   if s == "-" then some [] else (s.splitOn ",").mapM (·.toNat?)
@@ -238,6 +243,40 @@ def stepLine (w : World) (toks : List String) : World × String :=
       let x := decode decU16 decVoid (w.getSet r) b
       (w.putSet r x.1, s!"{match x.2 with | some n => s!"ok {n}" | none => "err"} | {showSet x.1}")
     | _, _ => (w, "bad-op")
+  -- ordered maps with pointer / slice / map values
+  | "codec" :: t :: hs =>
+    match t.toNat?, hs.mapM unhex with
+    | some t, some tbl => ({ w with tables := w.tables.set t tbl }, "ok")
+    | _, _ => (w, "bad-op")
+  | ["tnew", t] =>
+    match t.toNat? with
+    | some t => ({ w with tmaps := w.tmaps.set t [] }, "[]")
+    | none => (w, "bad-op")
+  | ["tset", t, k, v] =>
+    match t.toNat?, k.toNat?, v.toNat? with
+    | some t, some k, some v =>
+      let m := (AMap.set (w.tmaps.getD t []) k v).1
+      ({ w with tmaps := w.tmaps.set t m }, showKVs m)
+    | _, _, _ => (w, "bad-op")
+  | ["tdel", t, k] =>
+    match t.toNat?, k.toNat? with
+    | some t, some k =>
+      let m := (AMap.delete (w.tmaps.getD t []) k).1
+      ({ w with tmaps := w.tmaps.set t m }, showKVs m)
+    | _, _ => (w, "bad-op")
+  | ["tenc", t] =>
+    match t.toNat? with
+    | some t =>
+      let b := encode encU16 (encTable (w.tables.getD t [])) (w.tmaps.getD t [])
+      ({ w with tlast := w.tlast.set t b }, hex b)
+    | none => (w, "bad-op")
+  | ["tdec", t] =>
+    match t.toNat? with
+    | some t =>
+      let x := decode decU16 (decTable (w.tables.getD t [])) (w.tmaps.getD t []) (w.tlast.getD t [])
+      ({ w with tmaps := w.tmaps.set t x.1 },
+        s!"{match x.2 with | some n => s!"ok {n}" | none => "err"} | {showKVs x.1}")
+    | none => (w, "bad-op")
   -- SetArithmetic
   | ["arnew"] => ({ w with counts := fun _ => 0 }, "ok")
   | ["aradd", a, d, t] =>
@@ -254,6 +293,7 @@ def stepLine (w : World) (toks : List String) : World × String :=
     | _, _, _ => (w, "bad-op")
   -- concurrent scenarios executed by the harness: after the fixes every call returns (C11_deadlock_free)
   | "forced" :: _ => (w, "done")
+  | "mforced" :: _ => (w, "done")
   | "stress" :: _ => (w, "done")
   | "lin" :: rest => (w, linLine rest)
   | "quiesce" :: rest => (w, quiesceLine rest)
